@@ -45,7 +45,9 @@ pub enum HFault {
     DropKey { site: Site },
 }
 
-const PAYLOADS: [&str; 40] = [
+const PAYLOADS: [&str; 42] = [
+    // expanded when applied: 150 000 '%' without a line end; 150 000 '(' (unbalanced string)
+    "@percent_run", "@paren_run",
     // PostScript calculator programs
     "{ 5 1 roll }", "{ 1 5 roll }", "{ 2 -2147483648 roll }", "{ 0 0 roll }", "{ 3 index }", "{ -1 index }", "}{", "{", "{ 1e39 1e39 mul 1 roll }",
     "{ 2147483647 2147483647 roll }", "{ dup dup dup dup roll }", "{ pop pop pop }", "{ 1 0 roll 0 index }", "{ 2 1e39 roll }",
@@ -320,7 +322,11 @@ pub fn apply(spec: &DocSpec, faults: &[HFault]) -> DocSpec {
                 if let Some(Slot::Direct { body: Body::Stream { dict, data: d, .. }, .. }) = s.revisions.get_mut(*rev).and_then(|r| r.slots.get_mut(num)) {
                     // the payload is stored as is: filters of the template stream are dropped
                     dict.retain(|(k, _)| k != "Filter" && k != "DecodeParms");
-                    *d = data.clone();
+                    *d = match &data[..] {
+                        b"@percent_run" => vec![b'%'; 150_000],
+                        b"@paren_run" => vec![b'('; 150_000],
+                        _ => data.clone(),
+                    };
                 }
             }
             HFault::DropKey { site } => {
